@@ -62,6 +62,13 @@ def atWrite (p : Proc) : Bool := match p.hnd with | some (.write, _) => true | _
 /-- the runner holding the lock, if any -/
 def lockRunner (sh : Shared) : Option Nat := match sh.lock with | some (.run j) => some j | _ => none
 
+/-- an unsignalled process has no handler running, keeps the clean-up registered (repaired source) and
+    has cleaned up when it is past the `cleaned` test or has exited -/
+def OwnClean (p : Proc) : Prop :=
+  p.signalled = false → p.hnd = none ∧
+    (p.loc ≠ .init → p.reg = true) ∧ (p.loc.pastTest = true → p.cleaned = true) ∧
+    (∀ c, p.dead = some (.code c) → p.cleaned = true)
+
 structure Inv (cfg : Cfg) (d0 : Bool) (s : St) : Prop where
   fresh : ∀ i, s.n ≤ i → s.procs i = {}
   lockRun : ∀ i, s.sh.lock = some (.run i) → i < s.n ∧ (s.procs i).dead = none
@@ -90,13 +97,10 @@ structure Inv (cfg : Cfg) (d0 : Bool) (s : St) : Prop where
   pidInv : ∀ q, q < s.n → s.sh.pid = some q → (s.procs q).signalled = false → (s.procs q).cleaned = true →
     (s.procs q).loc.atRmPid = true
   deadLoc : ∀ q c, (s.procs q).dead = some (.code c) → (s.procs q).loc.isFinNone = true
-  ownClean : cfg.unregOnSuccess = false → ∀ q, q < s.n → (s.procs q).signalled = false →
-    ((s.procs q).loc ≠ .init → (s.procs q).reg = true) ∧
-    ((s.procs q).loc.pastTest = true → (s.procs q).cleaned = true) ∧
-    (∀ c, (s.procs q).dead = some (.code c) → (s.procs q).cleaned = true)
+  ownClean : cfg.unregOnSuccess = false → ∀ q, q < s.n → OwnClean (s.procs q)
 
 theorem inv_init (cfg : Cfg) (done : Bool) (failed : Option Nat) : Inv cfg done (St.init done failed) := by
-  constructor <;> simp [St.init, LState.holds, lockRunner]
+  constructor <;> simp [St.init, LState.holds, lockRunner, OwnClean]
 
 
 /-- unfold one action completely; the result of the process step is named once (`hr : … = (sh', p')`) so
@@ -298,5 +302,187 @@ theorem act_sigBody2 (cfg : Cfg) (d0 : Bool) (s : St) (a : Act) (h : Inv cfg d0 
   have := h.fresh s.n
   cases a <;> simp only [Act.proc] at * <;> unfold_act <;>
     grind (splits := 30) [atWrite, inBody, noHandler, Loc.holding, Loc.failing, Loc.afterBody, Loc.inTry, lockRunner]
+
+
+theorem act_spawnedInv (cfg : Cfg) (d0 : Bool) (s : St) (a : Act) (h : Inv cfg d0 s) :
+    ∀ l q, (act cfg s a).ls l = .spawned q → q < (act cfg s a).n ∧ (((act cfg s a).procs q).signalled = false →
+      ((act cfg s a).procs q).loc.early = true ∧ ((act cfg s a).procs q).cleaned = false) := by
+  intro l q
+  have := h.spawnedInv l q
+  have := h.lockLaunch l
+  have := h.unsig q
+  cases a <;> unfold_act <;> grind (splits := 30) [Loc.early, Loc.inTry, LState.holds]
+
+theorem act_pidInv (cfg : Cfg) (d0 : Bool) (s : St) (a : Act) (h : Inv cfg d0 s) :
+    ∀ q, q < (act cfg s a).n → (act cfg s a).sh.pid = some q → ((act cfg s a).procs q).signalled = false →
+      ((act cfg s a).procs q).cleaned = true → ((act cfg s a).procs q).loc.atRmPid = true := by
+  intro q
+  have := h.pidInv q
+  have := h.unsig q
+  have := h.spawnedInv
+  cases a <;> unfold_act <;> grind (splits := 30) [Loc.atRmPid, Loc.inTry]
+
+theorem act_deadLoc (cfg : Cfg) (d0 : Bool) (s : St) (a : Act) (h : Inv cfg d0 s) :
+    ∀ q c, ((act cfg s a).procs q).dead = some (.code c) → ((act cfg s a).procs q).loc.isFinNone = true := by
+  intro q c
+  have := h.deadLoc q c
+  cases a <;> unfold_act <;> grind (splits := 30) [Loc.isFinNone, Loc.inTry]
+
+/-- lifting of an invariant that only looks at one process record -/
+theorem act_local (cfg : Cfg) (P : Proc → Prop) (hnew : ∀ o b, P (newProc o b))
+    (hstep : ∀ i sh p, P p → P (stepProc cfg i sh p).2)
+    (hsig : ∀ i sh p sg, P p → P (deliver i sh p sg).2)
+    (s : St) (a : Act) (h : ∀ q, q < s.n → P (s.procs q)) :
+    ∀ q, q < (act cfg s a).n → P ((act cfg s a).procs q) := by
+  intro q
+  have := h q
+  cases a with
+  | step i =>
+    have := hstep i s.sh (s.procs i); have := h i
+    simp only [act]; split <;> (try simp only [upd]) <;> grind
+  | signal i sg =>
+    have := hsig i s.sh (s.procs i) sg; have := h i
+    simp only [act]; split <;> (try simp only [upd]) <;> grind
+  | spawn o b => have := hnew o b; simp only [act, upd]; grind
+  | lSpawn l o b => have := hnew o b; simp only [act]; split <;> (try simp only [upd]) <;> grind
+  | lLock l => simp only [act]; split <;> grind
+  | lWrite l => simp only [act]; split <;> grind
+  | lRelease l => simp only [act]; split <;> grind
+  | lDie l => simp only [act]; split <;> grind
+
+theorem step_ownClean (cfg : Cfg) (hc : cfg.unregOnSuccess = false) (i : Nat) (sh : Shared) (p : Proc)
+    (ih : OwnClean p) : OwnClean (stepProc cfg i sh p).2 := by
+  unfold OwnClean at *
+  cases hr : stepProc cfg i sh p with
+  | mk sh' p' =>
+  unfold stepProc mainStep handlerStep afterHandler finStart release markEpoch at hr
+  simp only
+  intro hs
+  refine ⟨?_, ?_, ?_, ?_⟩ <;> grind (splits := 30) [Loc.pastTest, Loc.inTry]
+
+theorem deliver_ownClean (i : Nat) (sh : Shared) (p : Proc) (sg : Sig)
+    (ih : OwnClean p) : OwnClean (deliver i sh p sg).2 := by
+  unfold OwnClean at *
+  cases hr : deliver i sh p sg with
+  | mk sh' p' =>
+  unfold deliver finStart release at hr
+  simp only
+  intro hs
+  refine ⟨?_, ?_, ?_, ?_⟩ <;> grind (splits := 30) [Loc.pastTest, Loc.inTry]
+
+
+theorem act_ownClean (cfg : Cfg) (d0 : Bool) (s : St) (a : Act) (h : Inv cfg d0 s) :
+    cfg.unregOnSuccess = false → ∀ q, q < (act cfg s a).n → OwnClean ((act cfg s a).procs q) := fun hc =>
+  act_local cfg OwnClean (by intro o b; simp [OwnClean, newProc, Loc.pastTest])
+    (fun i sh p => step_ownClean cfg hc i sh p) deliver_ownClean s a (h.ownClean hc)
+
+theorem inv_act (cfg : Cfg) (d0 : Bool) (s : St) (a : Act) (h : Inv cfg d0 s) : Inv cfg d0 (act cfg s a) where
+  fresh := act_fresh cfg d0 s a h
+  lockRun := act_lockRun cfg d0 s a h
+  lockLaunch := act_lockLaunch cfg d0 s a h
+  held := act_held cfg d0 s a h
+  notDone := act_notDone cfg d0 s a h
+  handlers := act_handlers cfg d0 s a h
+  completedAt := act_completedAt cfg d0 s a h
+  touchedDone := act_touchedDone cfg d0 s a h
+  doneMono := act_doneMono cfg d0 s a h
+  uniqueTouch := act_uniqueTouch cfg d0 s a h
+  noWrite := act_noWrite cfg d0 s a h
+  epochLe := act_epochLe cfg d0 s a h
+  sigBody1 := act_sigBody1 cfg d0 s a h
+  sigBody2 := act_sigBody2 cfg d0 s a h
+  sigBody3 := act_sigBody3 cfg d0 s a h
+  unsig := act_unsig cfg d0 s a h
+  spawnedInv := act_spawnedInv cfg d0 s a h
+  pidInv := act_pidInv cfg d0 s a h
+  deadLoc := act_deadLoc cfg d0 s a h
+  ownClean := act_ownClean cfg d0 s a h
+
+theorem inv_run (cfg : Cfg) (d0 : Bool) (acts : List Act) (s : St) (h : Inv cfg d0 s) : Inv cfg d0 (run cfg s acts) := by
+  induction acts generalizing s with
+  | nil => exact h
+  | cons a as ih => exact ih _ (inv_act cfg d0 s a h)
+
+/-- states reachable from a job directory with the given markers -/
+def Reach (cfg : Cfg) (done : Bool) (failed : Option Nat) (s : St) : Prop :=
+  ∃ acts, s = run cfg (St.init done failed) acts
+
+theorem inv_reach {cfg : Cfg} {done : Bool} {failed : Option Nat} {s : St} (h : Reach cfg done failed s) :
+    Inv cfg done s := by
+  obtain ⟨acts, rfl⟩ := h
+  exact inv_run cfg done acts _ (inv_init cfg done failed)
+
+
+theorem act_n_mono (cfg : Cfg) (s : St) (a : Act) : s.n ≤ (act cfg s a).n := by
+  cases a <;> simp only [act] <;> (try split) <;> simp <;> (try split) <;> simp
+
+theorem act_touched_mono (cfg : Cfg) (s : St) (a : Act) (i : Nat) (hi : i < s.n) (h : (s.procs i).touched = true) :
+    ((act cfg s a).procs i).touched = true := by
+  act_cases a => grind (splits := 30)
+
+def DoneOrigin (d0 : Bool) (s : St) : Prop := s.sh.done = true → d0 = true ∨ ∃ i, i < s.n ∧ (s.procs i).touched = true
+
+theorem act_doneOrigin (cfg : Cfg) (d0 : Bool) (s : St) (a : Act) (h : DoneOrigin d0 s) : DoneOrigin d0 (act cfg s a) := by
+  intro hd
+  by_cases hs : s.sh.done = true
+  · rcases h hs with h0 | ⟨i, hi, ht⟩
+    · exact Or.inl h0
+    · exact Or.inr ⟨i, Nat.lt_of_lt_of_le hi (act_n_mono cfg s a), act_touched_mono cfg s a i hi ht⟩
+  · right
+    revert hd
+    cases a with
+    | step i =>
+      simp only [act]
+      split
+      · intro hd
+        refine ⟨i, by assumption, ?_⟩
+        revert hd
+        generalize hr : stepProc _ _ _ _ = r
+        obtain ⟨sh', p'⟩ := r
+        unfold stepProc mainStep handlerStep afterHandler finStart release markEpoch at hr
+        simp only [upd]
+        grind (splits := 30)
+      · grind
+    | signal i sg =>
+      simp only [act]
+      split
+      · generalize hr : deliver _ _ _ _ = r
+        obtain ⟨sh', p'⟩ := r
+        unfold deliver finStart release at hr
+        grind (splits := 30)
+      · grind
+    | spawn o b => simp only [act]; grind
+    | lLock l => simp only [act]; split <;> grind
+    | lSpawn l o b => simp only [act]; split <;> grind
+    | lWrite l => simp only [act]; split <;> grind
+    | lRelease l => simp only [act]; unfold release; split <;> grind
+    | lDie l => simp only [act]; unfold release; split <;> grind
+
+theorem doneOrigin_reach {cfg : Cfg} {done : Bool} {failed : Option Nat} {s : St} (h : Reach cfg done failed s) :
+    DoneOrigin done s := by
+  obtain ⟨acts, rfl⟩ := h
+  suffices ∀ (acts : List Act) (s : St), DoneOrigin done s → DoneOrigin done (run cfg s acts) from
+    this acts _ (by intro hd; left; simpa [St.init] using hd)
+  intro acts
+  induction acts with
+  | nil => intro s h; exact h
+  | cons a as ih => intro s h; exact ih _ (act_doneOrigin cfg done s a h)
+
+/-- a filter that is satisfied by at most one element of a duplicate-free list has length ≤ 1 -/
+theorem filter_le_one {α : Type} (p : α → Bool) (l : List α) (hn : l.Nodup)
+    (hu : ∀ a b, a ∈ l → b ∈ l → p a = true → p b = true → a = b) : (l.filter p).length ≤ 1 := by
+  induction l with
+  | nil => simp
+  | cons x xs ih =>
+    have hn' := List.nodup_cons.mp hn
+    have ih' := ih hn'.2 (fun a b ha hb => hu a b (List.mem_cons_of_mem _ ha) (List.mem_cons_of_mem _ hb))
+    by_cases hx : p x = true
+    · have : xs.filter p = [] := by
+        apply List.filter_eq_nil_iff.mpr
+        intro a ha hpa
+        have := hu x a (List.mem_cons_self) (List.mem_cons_of_mem _ ha) hx hpa
+        exact hn'.1 (this ▸ ha)
+      simp [List.filter, hx, this]
+    · simp [List.filter, hx]; exact ih'
 
 end XpmVerif.Runner
